@@ -276,3 +276,28 @@ func init() {
 		&gen.TD{Kind: "struct", Fields: []gen.FD{fd("X", "x", "", ptd("int")), fd("S", "s", "", ptd("string"))}},
 		v(func(v reflect.Value) bool { return v.Field(0).Int() >= 0 }))
 }
+
+// selfUnpackingSources are the grid sources for the two parts of this file.
+func selfUnpackingSources() []vsrc {
+	f := func(x string) *gen.TV { return &gen.TV{F: x} }
+	uc := func(x int64) *gen.TV { return tvS(tvI(x), &gen.TV{}) }
+	return []vsrc{
+		{"Validate (value receiver) rejecting the zero value on named int", ptd("cat:c04_zi"), tvI(1), tvI(0), num(1), num(0)},
+		{"Validate (pointer receiver) rejecting the zero value on named string", ptd("cat:c04_zt"), &gen.TV{S: "x"}, &gen.TV{}, gen.Str("x"), gen.Str("")},
+		{"Validate (pointer receiver) rejecting the zero value on named uint", ptd("cat:c04_zu"), &gen.TV{U: 1}, &gen.TV{}, num(1), num(0)},
+		{"Validate (value receiver) rejecting the zero value on named float", ptd("cat:c04_zf"), f("0x1p+00"), &gen.TV{}, gen.Float(1.5), gen.Float(0)},
+		{"Validate (value receiver) rejecting the zero value on named bool", ptd("cat:c04_zb"), &gen.TV{B: true}, &gen.TV{}, gen.Bool(true), gen.Bool(false)},
+		{"IntUnpacker (pointer receiver) with Validate (value receiver)", ptd("cat:c04_ui"), tvI(1), tvI(-1), num(1), num(-1)},
+		{"IntUnpacker (pointer receiver) with Validate (pointer receiver) rejecting the zero value", ptd("cat:c04_uz"), tvI(1), tvI(0), num(1), num(0)},
+		{"UintUnpacker (pointer receiver) with Validate (pointer receiver)", ptd("cat:c04_uu"), &gen.TV{U: 7}, &gen.TV{U: 101}, num(100), num(101)},
+		{"FloatUnpacker (pointer receiver) with Validate (value receiver)", ptd("cat:c04_uf"), f("0x1.8p+00"), f("-0x1p-01"), gen.Float(0.5), gen.Float(-0.5)},
+		{"StringUnpacker (pointer receiver) with Validate (pointer receiver)", ptd("cat:c04_ut"), &gen.TV{S: "x"}, &gen.TV{S: "bad"}, gen.Str("x y"), gen.Str("a")},
+		{"BoolUnpacker (pointer receiver) with Validate (value receiver)", ptd("cat:c04_ub"), &gen.TV{}, &gen.TV{B: true}, gen.Bool(false), gen.Bool(true)},
+		{"Unpacker (pointer receiver, generic) with Validate (value receiver)", ptd("cat:c04_ug"), &gen.TV{S: "x"}, &gen.TV{S: "bad"}, gen.Str("x y"), gen.Str("a")},
+		{"struct ConfigUnpacker (pointer receiver) with Validate (value receiver)", ptd("cat:c04_uc"), uc(1), uc(-1), objOf("x", num(1)), objOf("x", num(-1))},
+		{"tag min on IntUnpacker", one("X", "x", "min=1", ptd("cat:c04_ui")), tvS(tvI(5)), tvS(tvI(0)), objOf("x", num(5)), objOf("x", num(0))},
+		{"tag required on StringUnpacker", one("X", "x", "required", ptd("cat:c04_ut")), tvS(&gen.TV{S: "x"}), tvS(&gen.TV{}), objOf("x", gen.Str("x")), objOf("x", gen.Str(""))},
+		{"tag max on *IntUnpacker", one("X", "x", "max=3", tdOf("ptr", ptd("cat:c04_ui"))), tvS(tvPtr(tvI(1))), tvS(tvPtr(tvI(5))), objOf("x", num(1)), objOf("x", num(5))},
+		{"tag nonzero on UintUnpacker", one("X", "x", "nonzero", ptd("cat:c04_uu")), tvS(&gen.TV{U: 7}), tvS(&gen.TV{}), objOf("x", num(1)), objOf("x", num(0))},
+	}
+}
